@@ -68,7 +68,7 @@ def values(quick):
 
 
 SEQ_STYLES = ["index", "negindex", "iter", "unpack", "slice-all", "slice-rev", "slice-split", "add", "radd", "add2", "add0", "radd0", "queries"]
-DICT_STYLES = ["getitem", "keys", "values", "items", "get", "iter", "queries"]
+DICT_STYLES = ["getitem", "keys", "values", "items", "get", "get-default-is-stored", "iter", "queries"]
 
 
 def read(c, styles, depth, isbox_container):
@@ -90,6 +90,10 @@ def read(c, styles, depth, isbox_container):
         elif st == "get":
             elems = [(k, c.get(k)) for k in keys]
             assert c.get("no-such-key", None) is None
+        elif st == "get-default-is-stored":
+            # the default handed to get() is the very object stored under the key (a params dict initialised from module-level defaults)
+            stored = getattr(c, "_value", c)
+            elems = [(k, c.get(k, stored[k])) for k in keys]
         elif st == "iter":
             elems = [(k, c[k]) for k in keys]
         else:   # queries
